@@ -26,6 +26,7 @@ const (
 	KAwait
 	KWgWait
 	KWgAdd
+	KAtomicLoad
 )
 
 // On reports whether a scheduler owns the current execution.
